@@ -4,7 +4,10 @@ claims, levels and not_applicable list stay consistent)."""
 import json, os
 V = os.path.dirname(os.path.dirname(os.path.abspath(__file__)))
 CLAIMS = {}
-exec(open(os.path.join(V, "tools", "claims.py")).read())
+PENDING = {}
+for f in sorted(os.listdir(os.path.join(V, "tools", "claims.d"))):
+    if f.endswith(".py"):
+        exec(open(os.path.join(V, "tools", "claims.d", f)).read())
 ids = ["C%02d" % i for i in range(1, 21)]
 checks, na = [], []
 for i in ids:
